@@ -103,6 +103,13 @@ func (g *gzipResponseWriter) Finish() error {
 
 	body := g.buf.Bytes()
 
+	// a response the backend already encoded is passed through untouched
+	if g.Header().Get("Content-Encoding") != "" {
+		g.sendHeader()
+		_, err := g.ResponseWriter.Write(body)
+		return err
+	}
+
 	clHeader := g.Header().Get("Content-Length")
 	if clHeader != "" {
 		cl, err := strconv.Atoi(clHeader)
